@@ -30,7 +30,7 @@ func New(n int) *Sched {
 	return s
 }
 
-const budget = 10 * time.Second
+const budget = 3 * time.Second
 
 func (s *Sched) wait() error {
 	select {
